@@ -8,7 +8,7 @@ import random
 import subprocess
 
 from checks.common import Reporter, confirm_minimise_report, default_workers, run_regressions
-from simkit.core import Evidence, log, merge_counts, run_seed
+from simkit.core import mark_cover, reach_report, Evidence, log, merge_counts, run_seed
 from simkit.pool import ZygotePool, unwrap
 from worlds import ampworld
 
@@ -82,6 +82,7 @@ def main(tier: str, seed: int, opts) -> int:
             tags_seen[t] = tags_seen.get(t, 0) + 1
     with ZygotePool(workers=default_workers(), preload="worlds.ampworld,worlds.ampcheck") as pool:
         n_reg = run_regressions(rep, pool, PROP)
+        mark_cover(jobs)
         results = [unwrap(r, "C19 file") for r in pool.map(jobs, progress="C19")]
         stats: dict = {}
         abstract, nontrivial = set(), set()
@@ -139,6 +140,7 @@ def main(tier: str, seed: int, opts) -> int:
                             print(f"VIOLATION property={PROP} replay={rp}", flush=True)
         samples = [{"files": [f["text"][:1200] for f in jobs[0]["args"]["files"]],
                     "order": [[fi, *ampworld.REPLICAS[i]] for fi, i in jobs[0]["args"]["order"]], "clock_deltas": jobs[0]["args"]["clock"]}]
+    cover_hits = set(pool.cover_hits)
     ev.cov.update({
         "evaluations": stats.get("conversions", 0),
         "distinct_nontrivial": len(nontrivial),
@@ -156,6 +158,7 @@ def main(tier: str, seed: int, opts) -> int:
         "simulated_time": {"clock_reads": stats.get("clock_reads", 0), "clock_jumps": stats.get("clock_jumps", 0)},
         "real_subprocess_conversions_compared": sub_checked,
         "regression_replays_run": n_reg,
+        "anchored_code_reach": reach_report(PROP, cover_hits),
         "log_digest": digest.hexdigest(),
         "log_digest_normalised": digest_n.hexdigest(),
         "components": {"real": ["decaylanguage.modeling (reader, both generators)", "decaylanguage.__main__ via plumbum in-process", "lark", "particle", "pandas"],
